@@ -3,6 +3,7 @@ package props
 import (
 	"fmt"
 	"go/ast"
+	"go/token"
 	"go/types"
 	"strings"
 
@@ -17,10 +18,10 @@ func init() {
 }
 
 func c22(p *an.Prog, r *an.R, tier string) {
-	r.Explanation = "C22 (structural clause): display truncation only ever takes prefixes and never reorders. In the display-limit code (index/limit.go) every slice expression applied to the result's files, line matches, chunk matches, ranges, symbol infos, line fragments or chunk content starts at the beginning (no low bound); none of these slices is sorted, appended to, or has elements assigned; SortAndTruncateFiles sorts before it truncates. This is a necessary condition of 'what is returned is the beginning of the unlimited ranked result'. Does NOT decide the counts (at most N files / M matches), the position of the cut in the last file, or the whole-lines arithmetic of a shortened chunk (value-level)."
+	r.Explanation = "C22 (structural clauses): display truncation only ever takes prefixes and never reorders. In the display-limit code (index/limit.go) every slice expression applied to the result's files, line matches, chunk matches, ranges, symbol infos, line fragments or chunk content starts at the beginning (no low bound); none of these slices is sorted, appended to, or has elements assigned; every function that creates a display truncator and applies it itself ranks the files with SortFiles first, on every path; the streaming collector ends collecting (and flushes the limited aggregate) only on the wall-time timer or at the final flush. These are necessary conditions of 'what is returned is the beginning of the unlimited ranked result'. Does NOT decide the counts (at most N files / M matches), the position of the cut in the last file, or the whole-lines arithmetic of a shortened chunk (value-level; one defect of that arithmetic was found by reading and repaired, see known_findings.json)."
 	r.Rule("C22.R1", "every slice expression in the display-limit functions over result data is a prefix (low bound absent or 0)")
 	r.Rule("C22.R2", "the display-limit functions do not reorder or grow result data: no sort/slices mutator, no append, no element assignment on those slices")
-	r.Rule("C22.R3", "SortAndTruncateFiles calls SortFiles before the truncator")
+	r.Rule("C22.R3", "every function that calls NewDisplayTruncator and applies the truncator itself calls SortFiles before, on every path")
 	idx := p.Pkg("index")
 	if !r.Anchor(idx != nil, "index package") {
 		return
@@ -92,28 +93,156 @@ func c22(p *an.Prog, r *an.R, tier string) {
 	if slices > 0 {
 		r.OK("C22.R2", "index/display-limit/no-reordering", 0, "no sort, append or element assignment on result data in the display-limit functions")
 	}
-	d := p.Decl(p.Func("index", "SortAndTruncateFiles"))
 	sortFiles := p.Func("index", "SortFiles")
-	if r.Anchor(d != nil && sortFiles != nil, "index.SortAndTruncateFiles / SortFiles") {
-		info := d.Pkg.TypesInfo
-		g := an.NewG(info, d.Decl.Body)
-		for _, l := range g.Locs(func(ast.Node) bool { return true }) {
-			// the truncator call: a call of a local func value named truncator / of type DisplayTruncator
-			isTrunc := g.Contains(l, func(m ast.Node) bool {
-				c, ok := m.(*ast.CallExpr)
-				if !ok {
-					return false
-				}
-				t := info.TypeOf(c.Fun)
-				return t != nil && strings.HasSuffix(an.TypeName(t), "DisplayTruncator")
-			})
-			if !isTrunc {
-				continue
+	newTrunc := p.Func("index", "NewDisplayTruncator")
+	if r.Anchor(sortFiles != nil && newTrunc != nil, "index.SortFiles / NewDisplayTruncator") {
+		// every function that creates a truncator and applies it itself
+		nApply := 0
+		p.AllDecls(func(fn *types.Func, d *an.DeclInfo) {
+			if d.Decl.Body == nil || strings.HasSuffix(p.Fset.Position(d.Decl.Pos()).Filename, "_test.go") || len(an.CallsTo(d.Pkg.TypesInfo, d.Decl.Body, false, newTrunc)) == 0 {
+				return
 			}
-			skip := g.Reach(g.Entry(), false, &an.Search{Target: func(k an.Loc) bool { return k == l }, Cut: g.HasCallTo(sortFiles)})
-			r.Check(!skip, "C22.R3", "index.SortAndTruncateFiles/sort-precedes-truncate", g.Node(l).Pos(), "files are ranked before they are cut", "files are truncated before they are ranked: the cut keeps arbitrary files instead of the top of the ranking")
-		}
+			info := d.Pkg.TypesInfo
+			g := an.NewG(info, d.Decl.Body)
+			for _, l := range g.Locs(func(ast.Node) bool { return true }) {
+				// the truncator call: a call of a func value of type DisplayTruncator (not inside a nested literal)
+				isTrunc := g.Contains(l, func(m ast.Node) bool {
+					c, ok := m.(*ast.CallExpr)
+					if !ok {
+						return false
+					}
+					t := info.TypeOf(c.Fun)
+					return t != nil && strings.HasSuffix(an.TypeName(t), "DisplayTruncator")
+				})
+				if !isTrunc {
+					continue
+				}
+				nApply++
+				r.Fn(an.FuncName(fn))
+				skip := g.Reach(g.Entry(), false, &an.Search{Target: func(k an.Loc) bool { return k == l }, Cut: g.HasCallTo(sortFiles)})
+				r.Check(!skip, "C22.R3", an.FuncName(fn)+"/sort-precedes-truncate", g.Node(l).Pos(), "files are ranked with SortFiles before they are cut", "files are truncated without having been ranked by SortFiles on every path: the cut keeps files that are not the top of the ranking")
+			}
+		})
+		r.Floor("C22.R3.truncating-functions", 1, nApply)
 	}
+	c22Flush(p, r)
+}
+
+// c22Flush: in the streaming collector the only triggers of the early flush
+// are the wall-time timer and the final flush. Any other trigger makes the
+// streamed, limited result depend on arrival order.
+func c22Flush(p *an.Prog, r *an.R) {
+	r.Rule("C22.R4", "newFlushCollectSender: the closure that ends collecting (calls collectSender.Done) is invoked only from a select case on the FlushWallTime timer and from the final-flush function that is returned to the caller")
+	f := p.Func("search", "newFlushCollectSender")
+	d := p.Decl(f)
+	done := p.Func("search", "(*collectSender).Done")
+	if !r.Anchor(d != nil && done != nil, "search.newFlushCollectSender / (*collectSender).Done") {
+		return
+	}
+	r.Fn(an.FuncName(f))
+	info := d.Pkg.TypesInfo
+	// closures calling Done
+	var stops []types.Object
+	ast.Inspect(d.Decl.Body, func(n ast.Node) bool {
+		as, ok := n.(*ast.AssignStmt)
+		if !ok || len(as.Lhs) != 1 || len(as.Rhs) != 1 {
+			return true
+		}
+		if fl, ok := as.Rhs[0].(*ast.FuncLit); ok && len(an.CallsTo(info, fl.Body, false, done)) > 0 {
+			if id, ok := as.Lhs[0].(*ast.Ident); ok {
+				stops = append(stops, info.ObjectOf(id))
+			}
+		}
+		return true
+	})
+	if !r.Anchor(len(stops) >= 1, "newFlushCollectSender/closure that calls collectSender.Done") {
+		return
+	}
+	// Done itself must not be called outside those closures
+	// the returned final-flush function
+	finals := map[types.Object]bool{}
+	var finalLits []*ast.FuncLit
+	ast.Inspect(d.Decl.Body, func(n ast.Node) bool {
+		if _, ok := n.(*ast.FuncLit); ok {
+			return false // returns of nested literals are not the function's
+		}
+		rs, ok := n.(*ast.ReturnStmt)
+		if !ok || len(rs.Results) != 2 {
+			return true
+		}
+		switch x := ast.Unparen(rs.Results[1]).(type) {
+		case *ast.Ident:
+			finals[info.ObjectOf(x)] = true
+		case *ast.FuncLit:
+			finalLits = append(finalLits, x)
+		}
+		return true
+	})
+	ast.Inspect(d.Decl.Body, func(n ast.Node) bool {
+		as, ok := n.(*ast.AssignStmt)
+		if ok && len(as.Lhs) == 1 && len(as.Rhs) == 1 {
+			if id, ok := as.Lhs[0].(*ast.Ident); ok && finals[info.ObjectOf(id)] {
+				if fl, ok := as.Rhs[0].(*ast.FuncLit); ok {
+					finalLits = append(finalLits, fl)
+				}
+			}
+		}
+		return true
+	})
+	within := func(n ast.Node, outer ast.Node) bool { return outer.Pos() <= n.Pos() && n.End() <= outer.End() }
+	nCalls, nTimer, nFinal := 0, 0, 0
+	var stack []ast.Node
+	ast.Inspect(d.Decl.Body, func(n ast.Node) bool {
+		if n == nil {
+			stack = stack[:len(stack)-1]
+			return true
+		}
+		stack = append(stack, n)
+		c, ok := n.(*ast.CallExpr)
+		if !ok {
+			return true
+		}
+		isStop := false
+		for _, s := range stops {
+			if isIdentOf(info, c.Fun, s) {
+				isStop = true
+			}
+		}
+		if !isStop {
+			return true
+		}
+		nCalls++
+		kind := ""
+		for _, fl := range finalLits {
+			if within(c, fl) {
+				kind = "final-flush"
+				nFinal++
+			}
+		}
+		if kind == "" {
+			for i := len(stack) - 1; i >= 0; i-- {
+				cc, ok := stack[i].(*ast.CommClause)
+				if !ok || cc.Comm == nil {
+					continue
+				}
+				ast.Inspect(cc.Comm, func(m ast.Node) bool {
+					if ue, ok := m.(*ast.UnaryExpr); ok && ue.Op == token.ARROW {
+						if se, ok := ast.Unparen(ue.X).(*ast.SelectorExpr); ok && se.Sel.Name == "C" && strings.HasSuffix(an.TypeName(info.TypeOf(se.X)), "time.Timer") {
+							kind = "timer"
+						}
+					}
+					return true
+				})
+				break
+			}
+			if kind == "timer" {
+				nTimer++
+			}
+		}
+		r.Check(kind != "", "C22.R4", fmt.Sprintf("search.newFlushCollectSender/flush-trigger#%d/timer-or-final", nCalls), c.Pos(), "collecting ends on "+kind, "collecting is ended (and the collected, limited result flushed) from a place that is neither the wall-time timer nor the final flush: results arriving later are cut off although they may rank first")
+		return true
+	})
+	r.Floor("C22.R4.flush-triggers", 2, nCalls)
 }
 
 func c37(p *an.Prog, r *an.R, tier string) {
